@@ -8,6 +8,8 @@
 #[verifier::external_body] pub struct PoeticAssignment { _p: u8 }
 #[verifier::external_body] pub struct Function { _p: u8 }
 #[verifier::external_body] pub struct FunctionCall { _p: u8 }
+//@item src/frontend/ast.rs | enum | LiteralExpression
+//@end
 //@item src/frontend/ast.rs | struct | WithRange
 //@end
 //@item src/frontend/ast.rs | enum | UnaryOperator
